@@ -1,6 +1,245 @@
-(** C09probe — stub, being written. *)
+(** C09probe — first clause of C09: "After deployment every target keeps being
+    probed at the configured interval".
+
+    The probe loop of health_check.go (time.NewTicker(interval); one check() at once,
+    then one per tick, never two at a time; check() bounded by the probe timeout;
+    Close() cancels) is model/Ticker.v; [probe_times t0 interval timeout script stop]
+    lists, for the loop started at [t0], each probe as (send instant, Some (result
+    instant, success) | None when abandoned by Close); [script] gives the answer of the
+    target to the k-th probe (delay or never, good or bad) and bounds the run, so
+    "for all scripts of any length" is "for ever".  Times are ns.
+
+    Only statements here, each closed by [exact]; proofs are in proofs/TickerFacts.v.
+    The model is tied to the code by tools/c09probe.py (exact comparison of every send
+    and result instant on the virtual clock, corr/C09probecorr.v). *)
 From KP Require Import model.Base model.Ticker proofs.TickerFacts.
 Local Open Scope N_scope.
-Theorem c09_probe_duration : forall timeout a, dur timeout a <= timeout.
-Proof. exact dur_le_timeout. Qed.
-Print Assumptions c09_probe_duration.
+
+(** * 1. Exact cadence: no drift, for ever
+
+    If every check ends (answer or timeout) in strictly less than the interval, the
+    k-th probe is sent at exactly t0 + k * interval — whatever happened before. *)
+Theorem c09_probe_exact_cadence : forall t0 I TO script stop k s r,
+  0 < I -> (forall a, In a script -> dur TO a < I) ->
+  nth_error (probe_times t0 I TO script stop) k = Some (s, r) ->
+  s = t0 + N.of_nat k * I.
+Proof. exact P_exact_cadence. Qed.
+Print Assumptions c09_probe_exact_cadence.
+
+(** A probe timeout below the interval suffices, whatever the target answers. *)
+Theorem c09_probe_exact_cadence_timeout : forall t0 I TO script stop k s r,
+  0 < I -> TO < I ->
+  nth_error (probe_times t0 I TO script stop) k = Some (s, r) ->
+  s = t0 + N.of_nat k * I.
+Proof. exact P_exact_cadence_timeout. Qed.
+Print Assumptions c09_probe_exact_cadence_timeout.
+
+(** ... and the k-th probe IS sent then, for every k the script reaches, unless the
+    loop was closed before that instant. *)
+Theorem c09_probe_exact_cadence_alive : forall t0 I TO script stop k,
+  0 < I -> (forall a, In a script -> dur TO a < I) ->
+  (k < length script)%nat ->
+  after_stop stop (t0 + N.of_nat k * I) = false ->
+  exists r, nth_error (probe_times t0 I TO script stop) k = Some (t0 + N.of_nat k * I, r).
+Proof. exact P_exact_cadence_alive. Qed.
+Print Assumptions c09_probe_exact_cadence_alive.
+
+(** * 2. The general bound, in all cases
+
+    Consecutive probes k and k+1, sent at [s] and [s']: probe k has its result at
+    s + d (d = min(answer delay, timeout)); s' is determined by the phase of [s] on the
+    tick grid: the next tick if the check stayed short of it, otherwise at once.
+    Hence: checks never overlap (s + d <= s'); the next probe comes at most one
+    interval after the result, at most max(interval, d) <= max(interval, timeout)
+    after the previous probe: a target is never left unprobed for longer than that;
+    s' is on the grid unless the probe started from a waiting tick. *)
+Theorem c09_probe_consecutive : forall t0 I TO script stop k s r s' r',
+  0 < I ->
+  nth_error (probe_times t0 I TO script stop) k = Some (s, r) ->
+  nth_error (probe_times t0 I TO script stop) (S k) = Some (s', r') ->
+  exists a, nth_error script k = Some a /\
+    let d := dur TO a in
+    r = Some (s + d, verdict TO a) /\
+    s' = next_start t0 I s (s + d) /\
+    s' = (if phase t0 I s + d <? I then s - phase t0 I s + I else s + d) /\
+    s + d <= s' /\ s' <= s + d + I /\ s' <= s + N.max I d /\ s' <= s + N.max I TO /\ s < s' /\
+    (s' = s + d \/ on_grid t0 I s' = true) /\
+    (s' < s + d + I \/ (on_grid t0 I (s + d) = true /\ s' = s + d + I)).
+Proof. exact P_consecutive. Qed.
+Print Assumptions c09_probe_consecutive.
+
+(** The same in terms of ticks: if a tick fired in the window (s, e] of check k (it
+    waits in the one-slot channel; further ones are dropped) probe k+1 is sent at once,
+    at [e]; otherwise on the FIRST tick strictly later than [e]. *)
+Theorem c09_probe_next_tick : forall t0 I TO script stop k s r s' r',
+  0 < I ->
+  nth_error (probe_times t0 I TO script stop) k = Some (s, r) ->
+  nth_error (probe_times t0 I TO script stop) (S k) = Some (s', r') ->
+  exists e ok, r = Some (e, ok) /\ s <= e /\
+    ((exists j, s < tick_at t0 I j /\ tick_at t0 I j <= e) -> s' = e) /\
+    (~ (exists j, s < tick_at t0 I j /\ tick_at t0 I j <= e) ->
+       exists j, s' = tick_at t0 I j /\ e < s' /\ (forall i, e < tick_at t0 I i -> s' <= tick_at t0 I i)).
+Proof. exact P_next_tick. Qed.
+Print Assumptions c09_probe_next_tick.
+
+(** REFUTED: "the next probe is sent strictly less than one interval after the
+    result".  A check that ends on a tick instant without having missed a tick (an
+    immediate answer to a probe sent on the grid: the usual case) is followed by a
+    wait of exactly one interval.  The true bound is [<=] (c09_probe_consecutive),
+    strict unless the check ended exactly on the grid (its last clause:
+    c09_probe_gap_lt_partial). *)
+Theorem c09_probe_gap_lt_refuted :
+  exists t0 I TO script stop k s e ok s' r',
+    0 < I /\
+    nth_error (probe_times t0 I TO script stop) k = Some (s, Some (e, ok)) /\
+    nth_error (probe_times t0 I TO script stop) (S k) = Some (s', r') /\
+    ~ s' < e + I.
+Proof. exact P_gap_lt_refuted. Qed.
+Print Assumptions c09_probe_gap_lt_refuted.
+
+Theorem c09_probe_gap_lt_partial : forall t0 I TO script stop k s e ok s' r',
+  0 < I ->
+  nth_error (probe_times t0 I TO script stop) k = Some (s, Some (e, ok)) ->
+  nth_error (probe_times t0 I TO script stop) (S k) = Some (s', r') ->
+  s' < e + I \/ (on_grid t0 I e = true /\ s' = e + I).
+Proof. exact P_gap_lt_partial. Qed.
+Print Assumptions c09_probe_gap_lt_partial.
+
+(** * 3. No drift: the loop stays on, and returns to, the tick grid *)
+
+(** The first probe is sent when the loop starts. *)
+Theorem c09_probe_first : forall t0 I TO script stop s r,
+  nth_error (probe_times t0 I TO script stop) 0 = Some (s, r) -> s = t0.
+Proof. exact P_first. Qed.
+Print Assumptions c09_probe_first.
+
+(** One step of a check shorter than the interval: either the next probe is on the
+    grid again (the very next tick), or it started from a waiting tick and the phase
+    has shrunk by interval - duration. *)
+Theorem c09_probe_resync_step : forall t0 I TO script stop k s r s' r',
+  0 < I ->
+  nth_error (probe_times t0 I TO script stop) k = Some (s, r) ->
+  nth_error (probe_times t0 I TO script stop) (S k) = Some (s', r') ->
+  exists a, nth_error script k = Some a /\
+    let d := dur TO a in
+    d < I ->
+    (phase t0 I s + d < I -> s' = s - phase t0 I s + I /\ on_grid t0 I s' = true) /\
+    (I <= phase t0 I s + d -> s' = s + d /\ phase t0 I s' = phase t0 I s + d - I /\ phase t0 I s' < phase t0 I s).
+Proof. exact P_resync_step. Qed.
+Print Assumptions c09_probe_resync_step.
+
+(** On the grid and a check shorter than the interval: exactly one interval. *)
+Theorem c09_probe_stays_on_grid : forall t0 I TO script stop k s r s' r',
+  0 < I ->
+  nth_error (probe_times t0 I TO script stop) k = Some (s, r) ->
+  nth_error (probe_times t0 I TO script stop) (S k) = Some (s', r') ->
+  on_grid t0 I s = true ->
+  (exists a, nth_error script k = Some a /\ dur TO a < I) ->
+  s' = s + I.
+Proof. exact P_stays_on_grid. Qed.
+Print Assumptions c09_probe_stays_on_grid.
+
+(** Re-synchronisation: with all checks at most D < interval long, after a probe at
+    [s] the loop is back on the grid within n probes, for any n with
+    n * (interval - D) >= phase of [s]  (the phase is < interval, so
+    n = ceil(interval / (interval - D)) always suffices). *)
+Theorem c09_probe_resync_within : forall t0 I TO script stop D n k s r,
+  0 < I -> D < I -> (forall a, In a script -> dur TO a <= D) ->
+  nth_error (probe_times t0 I TO script stop) k = Some (s, r) ->
+  nth_error (probe_times t0 I TO script stop) (k + n) <> None ->
+  phase t0 I s <= N.of_nat n * (I - D) ->
+  exists j sj rj, (j <= n)%nat /\
+    nth_error (probe_times t0 I TO script stop) (k + j) = Some (sj, rj) /\ on_grid t0 I sj = true.
+Proof. exact P_resync_within. Qed.
+Print Assumptions c09_probe_resync_within.
+
+(** * 4. Result times and results
+
+    The result of probe k is reported at send + min(delay, timeout) (send + timeout
+    when the target never answers), and it is a success only if the k-th answer came
+    within the timeout and was a good one. *)
+Theorem c09_probe_result : forall t0 I TO script stop k s e ok,
+  nth_error (probe_times t0 I TO script stop) k = Some (s, Some (e, ok)) ->
+  exists a, nth_error script k = Some a /\
+    e = s + match fst a with Some d => N.min d TO | None => TO end /\
+    (ok = true <-> exists d, fst a = Some d /\ d <= TO /\ snd a = true).
+Proof. exact P_result. Qed.
+Print Assumptions c09_probe_result.
+
+(** * 5. Close
+
+    No probe is sent after the stop and nothing is reported after it; a probe without
+    a result is the last one, and it was in flight at the stop. *)
+Theorem c09_probe_stop : forall t0 I TO script x k s r,
+  nth_error (probe_times t0 I TO script (Some x)) k = Some (s, r) ->
+  s <= x /\
+  match r with
+  | Some (e, _) => e <= x
+  | None => (exists a, nth_error script k = Some a /\ x < s + dur TO a) /\
+            nth_error (probe_times t0 I TO script (Some x)) (S k) = None
+  end.
+Proof. exact P_stop. Qed.
+Print Assumptions c09_probe_stop.
+
+(** Until then the loop keeps probing: the first probe is sent unless the loop was
+    closed before it began, and after a reported probe another one follows unless the
+    instant it is due lies after the stop (or the script is exhausted). *)
+Theorem c09_probe_until_stop : forall t0 I TO script stop,
+  (script <> [] -> after_stop stop t0 = false ->
+   exists r, nth_error (probe_times t0 I TO script stop) 0 = Some (t0, r)) /\
+  (forall k s e ok,
+   nth_error (probe_times t0 I TO script stop) k = Some (s, Some (e, ok)) ->
+   nth_error (probe_times t0 I TO script stop) (S k) = None ->
+   (S k < length script)%nat ->
+   after_stop stop (next_start t0 I s e) = true).
+Proof. exact P_until_stop. Qed.
+Print Assumptions c09_probe_until_stop.
+
+(** Never closed: one probe per scripted answer, each with a result. *)
+Theorem c09_probe_no_stop : forall t0 I TO script,
+  length (probe_times t0 I TO script None) = length script /\
+  (forall k s r, nth_error (probe_times t0 I TO script None) k = Some (s, r) -> r <> None).
+Proof. exact P_no_stop. Qed.
+Print Assumptions c09_probe_no_stop.
+
+(** * Non-vacuity: runs of the model (the same runs are observed on the real code
+    by the directed scenarios of tools/c09probe.py) *)
+
+(** interval 1 s, timeout 5 s; the second probe takes 2.5 s (ticks at 2 s and 3 s
+    fire meanwhile: one waits, one is dropped), the third 0.7 s, then prompt answers:
+    sends at 0, 1, 3.5 (at once), 4.2 (at once: the tick of 4 s waited), 5, 6 — back on
+    the grid. *)
+Example c09_probe_run_slow :
+  probe_times 0 1000000000 5000000000
+    [(Some 0, true); (Some 2500000000, true); (Some 700000000, true); (Some 0, true); (Some 0, true); (Some 0, false)] None
+  = [(0, Some (0, true)); (1000000000, Some (3500000000, true)); (3500000000, Some (4200000000, true));
+     (4200000000, Some (4200000000, true)); (5000000000, Some (5000000000, true)); (6000000000, Some (6000000000, false))].
+Proof. vm_compute. reflexivity. Qed.
+
+(** a check that ends exactly on a tick: the next probe is sent at that instant; one
+    that ends 1 ns earlier: also at the tick instant (waited 1 ns); 1 ns later: at once *)
+Example c09_probe_run_tie :
+  map fst (probe_times 7 1000 5000 [(Some 0, true); (Some 1000, true); (Some 999, true); (Some 1001, true); (Some 0, true); (Some 0, true)] None)
+  = [7; 1007; 2007; 3007; 4008; 5007].
+Proof. vm_compute. reflexivity. Qed.
+
+(** timeouts: never answered = fails at send + timeout; answered exactly at the
+    timeout = still a success; 1 ns later = failure; Close at 2300: the probe in
+    flight is abandoned *)
+Example c09_probe_run_timeout_stop :
+  probe_times 0 1000 500 [(None, false); (Some 500, true); (Some 501, true); (Some 0, true)] (Some 2300)
+  = [(0, Some (500, false)); (1000, Some (1500, true)); (2000, None)].
+Proof. vm_compute. reflexivity. Qed.
+
+(** Close exactly on a tick (after what happens at that instant): that probe is still sent *)
+Example c09_probe_run_stop_on_tick :
+  probe_times 0 1000 500 [(Some 0, true); (Some 0, true); (Some 0, true); (Some 0, true); (Some 0, true)] (Some 2000)
+  = [(0, Some (0, true)); (1000, Some (1000, true)); (2000, Some (2000, true))].
+Proof. vm_compute. reflexivity. Qed.
+
+(** the hypotheses of the exact-cadence theorems are satisfiable with slow and failing
+    answers: timeout below the interval, hanging target *)
+Example c09_probe_run_exact :
+  map fst (probe_times 5 1000 999 [(None, false); (Some 998, true); (Some 2000, false); (None, false); (Some 0, true)] None)
+  = [5; 1005; 2005; 3005; 4005].
+Proof. vm_compute. reflexivity. Qed.
